@@ -100,3 +100,142 @@ Theorem C08_nonvacuous_history :
     run zcmp (zdedup 5 false) ops p0 = Some p /\ phase_rank p = 2%nat /\
     map zid (ranked p) = [7; 5] /\ length (offered ops) = 7%nat.
 Proof. exact nonvacuous_history. Qed.
+
+(* ===================== depth: statements that were only validated before ===================== *)
+
+(* every ranked individual is an offered one (or the best_known Greedy::new was given) *)
+Theorem C08_ranked_offered :
+  forall (ind : Type) (cmp : ind -> ind -> comparison) (dedup : ind -> ind -> bool), total_preorder cmp ->
+  forall p0 : pop ind, start_state p0 -> forall (ops : list (op ind)) (p : pop ind),
+  run cmp dedup ops p0 = Some p -> incl (ranked p) (ranked p0 ++ offered ops).
+Proof. exact @ranked_offered. Qed.
+
+(* the population is non-empty exactly when something was offered (or it was created with a best_known) *)
+Theorem C08_nonempty_iff_offered :
+  forall (ind : Type) (cmp : ind -> ind -> comparison) (dedup : ind -> ind -> bool), total_preorder cmp ->
+  forall p0 : pop ind, start_state p0 -> forall (ops : list (op ind)) (p : pop ind),
+  run cmp dedup ops p0 = Some p -> ((0 < size p)%nat <-> ranked p0 ++ offered ops <> []).
+Proof. exact @nonempty_iff_offered. Qed.
+
+(* clause 1 at full strength: the first ranked individual IS one of the offered individuals and a minimum of all of them *)
+Theorem C08_best_is_offered_minimum :
+  forall (ind : Type) (cmp : ind -> ind -> comparison) (dedup : ind -> ind -> bool), total_preorder cmp ->
+  forall p0 : pop ind, start_state p0 -> forall (ops : list (op ind)) (p : pop ind) (b : ind),
+  run cmp dedup ops p0 = Some p -> hd_error (ranked p) = Some b ->
+  In b (ranked p0 ++ offered ops) /\ (forall x, In x (ranked p0 ++ offered ops) -> cmp b x <> Gt).
+Proof. exact @best_is_offered_minimum. Qed.
+
+(* no single operation (add, add_all, generation tick, select, ranked) makes the first ranked individual worse *)
+Theorem C08_best_monotone :
+  forall (ind : Type) (cmp : ind -> ind -> comparison) (dedup : ind -> ind -> bool), total_preorder cmp ->
+  forall p0 : pop ind, start_state p0 -> forall (ops : list (op ind)) (p : pop ind) (o : op ind) (p' : pop ind) (b : ind),
+  run cmp dedup ops p0 = Some p -> step cmp dedup p o = Some p' -> hd_error (ranked p) = Some b ->
+  exists b', hd_error (ranked p') = Some b' /\ cmp b' b <> Gt.
+Proof. exact @best_monotone. Qed.
+
+(* clause 5 strengthened, every population and every phase of Rosomaxa (Initial: all stored solutions; Exploration: elite part
+   + node part cut to the phase's selection size; Exploitation: elite part): the selection contains the first ranked individual *)
+Theorem C08_select_contains_best :
+  forall (ind : Type) (cmp : ind -> ind -> comparison) (dedup : ind -> ind -> bool), total_preorder cmp ->
+  forall p0 : pop ind, start_state p0 ->
+  forall (ops : list (op ind)) (p : pop ind) (draws : list Z) (hits : list bool) (nodes : list ind) (b : ind),
+  run cmp dedup ops p0 = Some p -> (1 <= selection_size p0)%nat -> hd_error (ranked p) = Some b ->
+  In b (select p draws hits nodes).
+Proof. exact @select_contains_best. Qed.
+
+(* Rosomaxa, Initial phase: the selection is exactly the sequence of all individuals offered so far *)
+Theorem C08_rosomaxa_initial_selects_all_offered :
+  forall (ind : Type) (cmp : ind -> ind -> comparison) (dedup : ind -> ind -> bool) (p0 : pop ind) (ops : list (op ind)) (p : pop ind)
+         (draws : list Z) (hits : list bool) (nodes : list ind),
+  start_state p0 -> run cmp dedup ops p0 = Some p -> phase_rank p = 0%nat -> select p draws hits nodes = offered ops.
+Proof. exact @initial_select_all_offered. Qed.
+
+(* dedup, part 1: in the ranking of Elitism / the elite of Rosomaxa no individual is a twin of the one ranked directly before it
+   (holds for every cmp and dedup, no order laws needed) *)
+Theorem C08_no_adjacent_twins :
+  forall (ind : Type) (cmp : ind -> ind -> comparison) (dedup : ind -> ind -> bool) (p0 : pop ind) (ops : list (op ind)) (p : pop ind),
+  start_state p0 -> run cmp dedup ops p0 = Some p -> is_greedy p = false -> no_adjacent_twins dedup (ranked p).
+Proof. exact @no_twins_reachable. Qed.
+
+(* dedup, part 2 — the twin rule of Elitism (any state e, any batch): an individual of the old population or of the batch that is
+   not in the new population either has a twin that stays and is no worse ("the better twin survives"), or the population is
+   full (max_population_size) of individuals that are all no worse *)
+Theorem C08_elitism_twin_rule :
+  forall (ind : Type) (cmp : ind -> ind -> comparison) (dedup : ind -> ind -> bool), total_preorder cmp ->
+  forall (e : elitism ind) (ys : list ind) (x : ind), In x (e_inds e ++ ys) ->
+  let l' := e_inds (e_add_all cmp dedup e ys) in
+  In x l' \/ (exists y, In y l' /\ cmp y x <> Gt /\ dedup x y = true) \/
+  (length l' = e_max e /\ forall y, In y l' -> cmp y x <> Gt).
+Proof. exact @e_add_all_dropped. Qed.
+
+(* ... and of Rosomaxa's elite: additionally an offered individual may be left out because it is strictly worse than the best known
+   (the is_comparable_with_best_known filter) *)
+Theorem C08_rosomaxa_elite_twin_rule :
+  forall (ind : Type) (cmp : ind -> ind -> comparison) (dedup : ind -> ind -> bool), total_preorder cmp ->
+  forall (r : rosomaxa ind) (xs : list ind) (x : ind), In x (e_inds (r_elite r) ++ xs) ->
+  let l' := e_inds (r_elite (r_add_all cmp dedup r xs)) in
+  In x l' \/ (exists y, In y l' /\ cmp y x <> Gt /\ dedup x y = true) \/
+  (length l' = e_max (r_elite r) /\ forall y, In y l' -> cmp y x <> Gt) \/
+  (exists b, hd_error (e_inds (r_elite r)) = Some b /\ cmp x b = Gt).
+Proof. exact @r_add_all_dropped. Qed.
+
+(* last clause at full strength: the result of the evolution loop is no worse than what the population was created with, every
+   initial solution and every offspring of every generation *)
+Theorem C08_solve_result_best :
+  forall (ind : Type) (cmp : ind -> ind -> comparison) (dedup : ind -> ind -> bool), total_preorder cmp ->
+  forall p0 : pop ind, start_state p0 ->
+  forall (inits : list ind) (gens : list generation) (r : option ind),
+  solve cmp dedup p0 inits gens = Some r ->
+  forall x, In x (ranked p0) \/ In x inits \/ (exists g, In g gens /\ In x (gen_offspring g)) ->
+  exists b, r = Some b /\ cmp b x <> Gt.
+Proof. exact @solve_result_best. Qed.
+
+(* Greedy and Elitism have no panicking operation at all *)
+Theorem C08_greedy_elitism_no_panic :
+  forall (ind : Type) (cmp : ind -> ind -> comparison) (dedup : ind -> ind -> bool) (ops : list (op ind)) (p : pop ind),
+  (forall r, p <> PR r) -> run cmp dedup ops p <> None.
+Proof. exact @non_rosomaxa_no_panic. Qed.
+
+(* selection sizes: Elitism::select yields exactly selection_size individuals (max(1, round(selection_size * ratio)) under Slow speed)
+   from a non-empty population, Greedy yields selection_size copies of its best, Rosomaxa returns all stored solutions in the Initial
+   phase, at most the phase's selection size in Exploration and min(phase size, elite selection) in Exploitation *)
+Theorem C08_elitism_select_size :
+  forall (ind : Type) (e : elitism ind) (draws : list Z), e_inds e <> [] -> length (e_select e draws) = e_sel_size e.
+Proof. exact (fun ind e draws H => @e_select_length ind (fun _ _ => Eq) (fun _ _ => false) e draws H). Qed.
+Theorem C08_greedy_select_size :
+  forall (ind : Type) (g : greedy ind), length (g_select g) = (length (g_ranked g) * g_sel g)%nat.
+Proof. exact (fun ind g => @g_select_length ind (fun _ _ => Eq) (fun _ _ => false) g). Qed.
+Theorem C08_rosomaxa_select_size :
+  forall (ind : Type) (r : rosomaxa ind) (draws : list Z) (hits : list bool) (nodes : list ind),
+  match r_phase r with
+  | PInitial sols => r_select r draws hits nodes = sols
+  | PExploration k _ => (length (r_select r draws hits nodes) <= k)%nat
+  | PExploitation k => length (r_select r draws hits nodes) = Nat.min k (length (e_select (r_elite r) draws))
+  end.
+Proof. exact @r_select_bound. Qed.
+
+(* select and ranked are pure reads; a generation tick never changes the ranking *)
+Theorem C08_reads_keep_population :
+  forall (ind : Type) (cmp : ind -> ind -> comparison) (dedup : ind -> ind -> bool) (p : pop ind) (o : op ind) (p' : pop ind),
+  step cmp dedup p o = Some p' ->
+  match o with
+  | OSelect _ _ _ | ORanked => p' = p
+  | OGen _ _ => ranked p' = ranked p
+  | _ => True
+  end.
+Proof. exact @reads_keep_population. Qed.
+
+(* once a population reports Exploitation it does so forever (Greedy and Elitism always do) *)
+Theorem C08_exploitation_absorbing :
+  forall (ind : Type) (cmp : ind -> ind -> comparison) (dedup : ind -> ind -> bool) (ops : list (op ind)) (p p' : pop ind),
+  run cmp dedup ops p = Some p' -> phase_rank p = 2%nat -> phase_rank p' = 2%nat.
+Proof. exact @exploitation_absorbing. Qed.
+
+(* Rosomaxa while in the Initial or Exploration phase: what it stores besides the elite (the Initial solutions, later the bag of
+   individuals handed to the GSOM network by create_network / store_batch) is exactly the sequence of everything offered so far —
+   so the `nodes` a selection can draw from the (unmodelled) network originate from offered individuals only *)
+Theorem C08_rosomaxa_stored_is_offered :
+  forall (ind : Type) (cmp : ind -> ind -> comparison) (dedup : ind -> ind -> bool) (p0 : pop ind) (ops : list (op ind)) (p : pop ind)
+         (l : list ind),
+  start_state p0 -> run cmp dedup ops p0 = Some p -> stored p = Some l -> l = offered ops.
+Proof. exact @stored_is_offered. Qed.
